@@ -285,7 +285,9 @@ def solve_smt2_z3api(smt2, timeout_ms, expect_sat=False):
         if r in ('unsat', 'sat'):
             return r, dt, model, reason
         return 'unknown', dt, None, 'saturated'
-    r, dt, model, reason = _z3_check(smt2, timeout_ms, True)
+    # stage 1 is governed by its resource limit and normally answers within seconds; a query on which z3 spends its time
+    # outside the resource accounting is handed to stage 2 after 20 s instead of waiting for the full backstop
+    r, dt, model, reason = _z3_check(smt2, min(timeout_ms, 20000), True)
     if r in ('unsat', 'sat'):
         return r, dt, model, reason
     saturated = 'incomplete' in reason
